@@ -1,10 +1,9 @@
 SPECIFICATION MCSpec
 CONSTANTS
-  Levels = {1, 3}
+  Levels = {9}
   Routes = {"interp", "java"}
   Progs = {"p1"}
   Digests = {7, 8}
   Builds = {"ok", "javac"}
-INVARIANTS TypeOK Sound NoFalseAlarm Statement RoutesAgree
-PROPERTIES WantStable ObsStable
+INVARIANTS NeverRoutesOnly
 CHECK_DEADLOCK FALSE
